@@ -206,13 +206,44 @@ pub fn alphabet_texts() -> Vec<&'static str> {
     r#"["a".."b"]"#,
     "function(x) x",
     "function() 1",
+    // lists of ONE item of every kind (a singleton list is a list: no operator takes the item out of it),
+    // lists of one such list, contexts of one boolean entry
+    "[true]",
+    "[false]",
+    "[[true]]",
+    "[[false]]",
+    "[true,false]",
+    "[0]",
+    r#"[""]"#,
+    r#"["b"]"#,
+    r#"[date("2021-02-03")]"#,
+    r#"[date("2021-02-04")]"#,
+    r#"[time("10:11:12")]"#,
+    r#"[date and time("2021-02-03T10:11:12")]"#,
+    r#"[duration("P1D")]"#,
+    r#"[duration("P1Y")]"#,
+    "[[]]",
+    "[{}]",
+    "[{a:1}]",
+    "[[1..2]]",
+    "[function(x) x]",
+    "{a:true}",
+    "{a:false}",
   ]
+}
+
+/// the single item of a list of one item
+fn single_item(v: &Value) -> Option<&Value> {
+  match v {
+    Value::List(items) if items.as_vec().len() == 1 => items.as_vec().first(),
+    _ => None,
+  }
 }
 
 pub fn run(cfg: &Cfg) -> Report {
   let mut rep = Report::new(
     "C09",
-    "ordered pairs (quick and thorough) and triples (a sample in quick, all in thorough) over a value alphabet of ~65 values (null, booleans, numbers incl. equal values of different scale and 34+ digit ones, strings, dates, times, date-times, both duration kinds, lists, contexts, ranges, functions), plus random numbers / strings / dates. Non-trivial: at least one operand is not null; distinct by rendered request.",
+    "ordered pairs (quick and thorough) and triples (a sample in quick, all in thorough) over a value alphabet of ~120 fixed values (null, booleans, numbers incl. equal values of different scale and 34+ digit ones, strings, dates, times, date-times, both duration kinds, lists, contexts, ranges, functions, a list of ONE item of every value kind, lists of one such list, contexts of one boolean entry), plus random numbers / strings / dates; not(a) and if a then b else c for every value; a singleton list in each position of between / in. Non-trivial: at least one operand is not null; distinct by rendered request.",
   );
   let mut model = Model::start(&cfg.driver);
   let mut rng = Rng::new(cfg.seed);
@@ -384,6 +415,87 @@ pub fn run(cfg: &Cfg) -> Report {
       }
     }
   }
+  // ------------------------------------------------------------------ negation and `if`: every value as the operand / condition
+  {
+    let ev_not = prepared("not(a)");
+    let ev_not_named = prepared("not(negand: a)");
+    let ev_if = prepared("if a then b else c");
+    let mut ureqs = vec![];
+    let mut umeta: Vec<(usize, Option<(usize, usize)>, Value)> = vec![];
+    let branch_pairs: Vec<(usize, usize)> = {
+      let pos = |t: &str| alphabet.iter().position(|(x, _)| x == t).unwrap_or(0);
+      vec![(pos("1"), pos("2")), (pos("true"), pos("false")), (pos("[true]"), pos("null")), (pos("null"), pos("[false]"))]
+    };
+    for i in 0..n {
+      let txt = format!("a = {}", alphabet[i].0);
+      let scope = scope_of(&[("a", &alphabet[i].1)]);
+      for (form, ev) in [("not(a)", &ev_not), ("not(negand: a)", &ev_not_named)] {
+        let r = match guarded(|| ev(&scope)) {
+          Ok(v) => v,
+          Err(m) => {
+            rep.disagree(Kind::ImplVsSpec, "not", "panic in operator not", &format!("{} with {}", form, txt), &m, "a value");
+            Value::Null(None)
+          }
+        };
+        rep.evaluations += 1;
+        rep.hit(&format!("not:{}", match r { Value::Boolean(true) => "true", Value::Boolean(false) => "false", _ => "null" }));
+        // the truth table: the negation of a boolean, null for every other operand
+        if as_bool(&r) != kleene(&alphabet[i].1).map(|b| !b) {
+          let sig = if single_item(&alphabet[i].1).is_some() { "'not' deviates from the three-valued truth table (a list of one item as the operand)" } else { "'not' deviates from the three-valued truth table" };
+          rep.disagree(Kind::ImplVsSpec, "not_table", sig, &format!("{} with {}", form, txt), &show(&r), "Kleene not");
+        }
+        if form == "not(a)" {
+          if let Some(ea) = &enc[i] {
+            ureqs.push(format!("(c09 not {})", ea));
+            umeta.push((i, None, r));
+          }
+        }
+      }
+      for &(j, k) in &branch_pairs {
+        let scope = scope_of(&[("a", &alphabet[i].1), ("b", &alphabet[j].1), ("c", &alphabet[k].1)]);
+        let r = match guarded(|| ev_if(&scope)) {
+          Ok(v) => v,
+          Err(m) => {
+            rep.disagree(Kind::ImplVsSpec, "if", "panic in if", &format!("if a then b else c with {}, b = {}, c = {}", txt, alphabet[j].0, alphabet[k].0), &m, "a value");
+            Value::Null(None)
+          }
+        };
+        rep.evaluations += 1;
+        // a condition that is true selects the first branch, one that is false the second (whatever else the
+        // operands are): the part of `if` that the truth tables fix
+        let want = match &alphabet[i].1 {
+          Value::Boolean(true) => Some(&alphabet[j].1),
+          Value::Boolean(false) => Some(&alphabet[k].1),
+          _ => None,
+        };
+        if let Some(w) = want {
+          if show(&r) != show(w) {
+            rep.disagree(Kind::ImplVsSpec, "if_boolean", "'if' with a boolean condition does not return the selected branch", &format!("{}, b = {}, c = {}", txt, alphabet[j].0, alphabet[k].0), &show(&r), &show(w));
+          }
+        }
+        if let (Some(ea), Some(eb), Some(ec)) = (&enc[i], &enc[j], &enc[k]) {
+          ureqs.push(format!("(c09 if {} {} {})", ea, eb, ec));
+          umeta.push((i, Some((j, k)), r));
+        }
+      }
+    }
+    let uanswers = model.ask_batch(&ureqs);
+    for ((req, ans), (i, jk, r)) in ureqs.iter().zip(uanswers.iter()).zip(umeta.iter()) {
+      rep.case(req, !matches!(alphabet[*i].1, Value::Null(_)));
+      let shown = show(r);
+      if &shown != ans {
+        let (fam, sig) = if jk.is_none() { ("not", "operator not differs from model") } else { ("if", "if differs from model") };
+        rep.disagree(Kind::ImplVsModel, fam, sig, &format!("{} with a = {}", req, alphabet[*i].0), &shown, ans);
+      }
+    }
+  }
+  // ------------------------------------------------------------------ a list of one item beside the item itself
+  // Nothing in the operators takes the item out of a list of one item: where an operand is such a list, the
+  // logical operators see a non-boolean (judged by the table laws above, which read the operand's kind from the
+  // value itself), and equality / ordering treat it as any other list (judged by the symmetry and mirror laws and
+  // by the model).  `singleton_of[i]` = the index of `[alphabet[i]]`, used for the triples below.
+  let singleton_of: Vec<Option<usize>> = (0..n).map(|i| { let t = format!("[{}]", alphabet[i].0); alphabet.iter().position(|(x, _)| *x == t) }).collect();
+  rep.extra.insert("alphabet_singleton_lists".into(), json!(singleton_of.iter().filter(|x| x.is_some()).count()));
   // ------------------------------------------------------------------ triples: between / in / and
   let mut triples: Vec<(usize, usize, usize)> = vec![];
   if thorough {
@@ -408,6 +520,20 @@ pub fn run(cfg: &Cfg) -> Report {
     }
     for _ in 0..20_000 {
       triples.push((rng.below(n as u64) as usize, rng.below(n as u64) as usize, rng.below(n as u64) as usize));
+    }
+    // a list of one item in each of the three positions of between / in, beside items of its item's kind
+    for i in 0..n {
+      if let Some(si) = singleton_of[i] {
+        for j in 0..n {
+          let related = j == i || (ordered_kind(&alphabet[i].1).is_some() && ordered_kind(&alphabet[i].1) == ordered_kind(&alphabet[j].1) && rng.chance(1, 4));
+          if related {
+            let sj = singleton_of[j].unwrap_or(si);
+            for t in [(si, j, j), (j, si, j), (j, j, si), (si, sj, sj), (i, sj, j), (i, j, sj), (si, i, j), (si, j, i)] {
+              triples.push(t);
+            }
+          }
+        }
+      }
     }
   }
   // in chunks: the thorough tier has n³ (about two million) triples with five requests each
